@@ -161,10 +161,13 @@ def run_property(prop, tier="quick", seed=0, write_baseline=False, only=None, ve
                                                   f"candidate counterexample from ground instances ({note}); full query: {v.reason}")
                 continue
             retry.append(ob)
+    baseline_fp = load_baseline().get("_fp", {}).get(prop, {})
+    fps = {ob.name: solve.fingerprint(ob) for ob in proof_obs}
     if retry:
-        # load-induced flips: everything still undecided is solved again with a tripled budget and half the worker
-        # processes (a real solver run; its `unsat` is confirmed by the second solver like any other)
-        again = list(retry)
+        # load-induced flips: a VC that is, up to generated names, the one discharged when the baseline was written and is
+        # undecided now is solved again with a tripled budget on half the worker processes (a real solver run; its `unsat`
+        # is confirmed by the second solver like any other).  Changed or new VCs already had the full portfolio.
+        again = [ob for ob in retry if baseline_fp.get(ob.name) == fps[ob.name] or write_baseline]
         v2s = solve.solve_all(again, timeout_ms=3 * solve.Z3_TIMEOUT_MS, workers=8, lite=True) if again else {}
         for ob in again:
             v2 = v2s[ob.name]
@@ -173,8 +176,6 @@ def run_property(prop, tier="quick", seed=0, write_baseline=False, only=None, ve
     solver_time = sum(v.time_s for v in verdicts.values()) + sum(v.time_s for v in cover_verdicts.values())
     wall_solve = time.time() - t_solve
     baseline = load_baseline().get(prop, [])
-    baseline_fp = load_baseline().get("_fp", {}).get(prop, {})
-    fps = {ob.name: solve.fingerprint(ob) for ob in proof_obs}
 
     def same_problem(ob):
         """the obligation is, up to generated names, the very problem that was discharged when the baseline was written"""
